@@ -147,6 +147,8 @@ class Fn:
         self.hidden = 0
         if self.rtype is not None:
             self.vars["_ret"] = self.rtype     # hidden local for `return f(...)` of a translated function
+        if spec.get("call_tmp"):               # [C10] hidden local for `obj.attr[i] = f(..)` of a translated function: declared type
+            self.vars["_call"] = _tt(spec["call_tmp"])
         # sanity: python parameters (except those the spec adds) must be the function's own
         pyargs = [a.arg for a in fdef.args.args]
         if spec.get("ignore_self"):     # a method whose `self` is only used to reach other methods (spec "calls" / translated)
@@ -157,7 +159,9 @@ class Fn:
         declared = [p for p, _ in self.params if p not in extra]
         if declared != pyargs:
             _fail(fdef, "parameters %s differ from the spec's %s" % (pyargs, declared))
-        if fdef.args.vararg or fdef.args.kwarg or fdef.args.kwonlyargs or fdef.args.defaults:
+        # [C17] spec option "allow_defaults": default values are ignored, the definition takes every parameter explicitly
+        # (callers in the model pass all of them).  Off by default.
+        if fdef.args.vararg or fdef.args.kwarg or fdef.args.kwonlyargs or (fdef.args.defaults and not spec.get("allow_defaults")):
             _fail(fdef, "varargs / keyword-only / default arguments")
 
     # ------------------------------------------------------------------ state access
@@ -237,6 +241,8 @@ class Fn:
             if isinstance(n.value, int):
                 return ("(%d)" % n.value, 'Z', [])
             _fail(n, "constant %r" % (n.value,))
+        if isinstance(n, ast.Name) and n.id in getattr(self, "bound", {}):      # [C11] comprehension variable
+            return (self.bound[n.id][0], self.bound[n.id][1], [])
         if isinstance(n, ast.Name):
             if n.id not in self.vars:
                 _fail(n, "unknown name %s" % n.id)
@@ -268,6 +274,11 @@ class Fn:
                 return ("(" + ", ".join(p[0] for p in parts) + ")", ('T',) + tuple(p[1] for p in parts), sum((p[2] for p in parts), []))
             _fail(n, "tuple/list literal where %s is needed" % (want,))
         if isinstance(n, ast.UnaryOp):
+            if isinstance(n.op, ast.Not) and self.spec.get("comprehensions"):
+                # [C11] spec option "comprehensions": `not lst` on a list is "lst is empty"
+                a0 = self.ex(n.operand, da)
+                if isinstance(a0[1], tuple) and a0[1][0] == 'L':
+                    return ("(zlen %s =? 0)" % a0[0], 'B', a0[2])
             if isinstance(n.op, ast.Not):
                 a = self.ex(n.operand, da, 'B')
                 return ("(negb %s)" % a[0], 'B', a[2])
@@ -355,6 +366,8 @@ class Fn:
                 for a, p, t in self.m.records[bt[1]]["fields"]:
                     if a == n.attr:
                         return ("(%s %s)" % (p, base[0]), t, base[2])
+            if bt == 'S' and n.attr in ("start", "stop"):      # [C11] bounds of an int-bounded slice (previously rejected)
+                return ("(s%s %s)" % (n.attr, base[0]), 'Z', base[2])
             _fail(n, "attribute .%s of %s" % (n.attr, bt))
         if isinstance(n, ast.Subscript):
             return self.subscript(n, da, want)
@@ -438,6 +451,55 @@ class Fn:
         if name == "len" and len(args) == 1:
             a = self.as_list(n, self.ex(args[0], da))
             return ("(zlen %s)" % a[0], 'Z', a[2])
+        if self.spec.get("comprehensions") and name in ("min", "max") and len(args) == 1 and isinstance(args[0], ast.GeneratorExp) \
+                and len(args[0].generators) == 1 and not args[0].generators[0].ifs and not args[0].generators[0].is_async \
+                and isinstance(args[0].generators[0].target, ast.Name):
+            # [C11] spec option "comprehensions": min / max of `E for v in L` is the fold over (map (fun v => E) L); Python
+            # raises on an empty sequence.  v is bound inside E only (it shadows nothing: it must not be a declared local)
+            g = args[0].generators[0]
+            v = g.target.id
+            if v in self.vars or v in getattr(self, "bound", {}):
+                _fail(n, "comprehension variable %s shadows a local" % v)
+            lst = self.as_list(n, self.ex(g.iter, da))
+            if lst[1][0] != 'L':
+                _fail(n, "comprehension over %s" % (lst[1],))
+            self.bound = dict(getattr(self, "bound", {}))
+            self.bound[v] = ("%s_" % v, lst[1][1])
+            try:
+                e = self.ex(args[0].elt, da, 'Z')
+            finally:
+                del self.bound[v]
+            if e[2]:
+                _fail(n, "partial expression inside a comprehension")
+            return ("(l%s (map (fun %s_ => %s) %s))" % (name, v, e[0], lst[0]), 'Z', lst[2] + ["(negb (zlen %s =? 0))" % lst[0]])
+        if self.spec.get("comprehensions") and name == "sum" and len(args) == 1 and isinstance(args[0], ast.GeneratorExp) \
+                and len(args[0].generators) == 1 and not args[0].generators[0].ifs and not args[0].generators[0].is_async \
+                and isinstance(args[0].generators[0].target, ast.Name):
+            # [C10] sum of `E for v in L` (integers): zsum (map (fun v => E) L); 0 on an empty sequence, as in Python
+            g = args[0].generators[0]
+            v = g.target.id
+            if v in self.vars or v in getattr(self, "bound", {}):
+                _fail(n, "comprehension variable %s shadows a local" % v)
+            lst = self.as_list(n, self.ex(g.iter, da))
+            if lst[1][0] != 'L':
+                _fail(n, "comprehension over %s" % (lst[1],))
+            self.bound = dict(getattr(self, "bound", {}))
+            self.bound[v] = ("%s_" % v, lst[1][1])
+            try:
+                e = self.ex(args[0].elt, da, 'Z')
+            finally:
+                del self.bound[v]
+            if e[2]:
+                _fail(n, "partial expression inside a comprehension")
+            return ("(zsum (map (fun %s_ => %s) %s))" % (v, e[0], lst[0]), 'Z', lst[2])
+        if self.spec.get("comprehensions") and name == "zip" and len(args) == 1 and isinstance(args[0], ast.Starred):
+            # [C11] zip(*pairs) on a list of 2-tuples, unpacked into two names: the two component sequences (Python raises on
+            # the unpacking when the list is empty)
+            a = self.as_list(n, self.ex(args[0].value, da))
+            t = a[1][1] if a[1][0] == 'L' else None
+            if not (isinstance(t, tuple) and t[0] == 'T' and len(t) == 3):
+                _fail(n, "zip(*x) on %s" % (a[1],))
+            return ("(map fst %s, map snd %s)" % (a[0], a[0]), ('T', ('L', t[1]), ('L', t[2])), a[2] + ["(negb (zlen %s =? 0))" % a[0]])
         if name in ("min", "max") and len(args) == 2:
             a, b = self.ex(args[0], da, 'Z'), self.ex(args[1], da, 'Z')
             return ("(Z.%s %s %s)" % (name, a[0], b[0]), 'Z', a[2] + b[2])
@@ -517,6 +579,24 @@ class Fn:
             for k, e in enumerate(target.elts):
                 body = "(%s_set_%s %s %s)" % (self.name, e.id, proj(n, k, "x_"), body)
             return "(fun x_ s => %s)" % body, {e.id for e in target.elts}
+        if isinstance(target, ast.Tuple):
+            # [C11] nested tuple targets `for a, (b, c) in ...` (previously rejected): component projections, innermost names
+            def walk(t, path):
+                if isinstance(t, ast.Name):
+                    return [(t.id, path)]
+                if isinstance(t, ast.Tuple):
+                    n_ = len(t.elts)
+                    return sum((walk(e, proj(n_, k, path)) for k, e in enumerate(t.elts)), [])
+                _fail(node, "destructuring target %s" % type(t).__name__)
+            pairs = walk(target, "x_")
+            if len({v for v, _ in pairs}) != len(pairs):
+                _fail(node, "a name bound twice in one target")
+            body = "s"
+            for v, path in pairs:
+                if v not in self.vars:
+                    _fail(node, "undeclared local %s" % v)
+                body = "(%s_set_%s %s %s)" % (self.name, v, path, body)
+            return "(fun x_ s => %s)" % body, {v for v, _ in pairs}
         _fail(node, "nested destructuring")
 
     def translated_call(self, call, da, node):
@@ -574,6 +654,33 @@ class Fn:
                 _fail(s, ".append on a parameter (the caller's list would change)")
             tx = self.ex(s.value.args[0], da, t[1])
             return self.guarded(tx[2], "(assign (fun s => %s))" % self.setter(v, "(%s ++ [%s])" % (self.get(v), tx[0]))), da
+        if isinstance(s, ast.FunctionDef) and s.name in self.spec.get("skip_defs", []) and s.name not in self.vars:
+            # [C17] spec option "skip_defs": a nested helper that is only reachable through a spec pattern (e.g. the key
+            # function of a `sorted(.., key=helper)` pattern); its name is not a variable, so any other use fails closed.
+            return "skip", da
+        if isinstance(s, ast.Expr) and isinstance(s.value, ast.Call) and isinstance(s.value.func, ast.Attribute) \
+                and s.value.func.attr == "append" and isinstance(s.value.func.value, ast.Attribute) \
+                and isinstance(s.value.func.value.value, ast.Name) and len(s.value.args) == 1 and not s.value.keywords \
+                and s.value.func.value.value.id in self.spec.get("mutates", []):
+            # [C10] `obj.attr.append(x)` on a record parameter declared under "mutates": the field becomes field ++ [x]
+            cur = self.ex(s.value.func.value, da)
+            if not (isinstance(cur[1], tuple) and cur[1][0] == 'L'):
+                _fail(s, ".append on a field of type %s" % (cur[1],))
+            tx = self.ex(s.value.args[0], da, cur[1][1])
+            return self.store(s, s.value.func.value, ("(%s ++ [%s])" % (cur[0], tx[0]), cur[1], cur[2] + tx[2]), da)
+        if isinstance(s, ast.Try) and self.spec.get("try_except"):
+            # [C10] spec option "try_except": `try: <ONE statement> except (E, ..): HANDLER` (no else/finally, one handler).  The
+            # model has a single `Raised` outcome, so the handler runs whenever the statement raises; the spec's note must
+            # argue that the statement can only raise the listed exceptions.  A single statement stores only after its
+            # expressions were evaluated, so the handler starts from the state at the `try`.
+            if s.orelse or s.finalbody or len(s.handlers) != 1 or len(s.body) != 1 or s.handlers[0].name is not None:
+                _fail(s, "try statement outside the try_except subset")
+            if not isinstance(s.body[0], (ast.Assign, ast.AugAssign, ast.Expr)):
+                _fail(s, "try body is not a single simple statement")
+            a, da_a = self.block(s.body, set(da))
+            b, da_b = self.block(s.handlers[0].body, set(da))
+            out = da_b if da_a is None else da_a if da_b is None else (da_a & da_b)
+            return "(try_ %s\n %s)" % (a, b), out
         if isinstance(s, ast.Raise):
             return "raise_", None
         if isinstance(s, ast.Return):
@@ -599,6 +706,15 @@ class Fn:
             tc = self.translated_call(s.value, da, s)
             if tc is not None:
                 txt, rt, conds = tc
+                if isinstance(t0, ast.Subscript) and "_call" in self.vars:
+                    # [C10] `obj.attr[i] = f(..)`: the result goes through the hidden local _call, then an ordinary item store
+                    if self.vars["_call"] != rt:
+                        _fail(s, "call result of type %s, call_tmp declares %s" % (rt, self.vars["_call"]))
+                    first = self.guarded(conds, "(call_ %s (fun x_ s => %s))" % (txt, self.setter("_call", "x_")))
+                    fake = ast.copy_location(ast.Assign(targets=[t0], value=ast.Name(id="_call", ctx=ast.Load())), s)
+                    ast.fix_missing_locations(fake)
+                    second, da2 = self.store_subscript(fake, t0, da | {"_call"})
+                    return "(andthen %s\n %s)" % (first, second), (da2 - {"_call"}) | da
                 if self.target_type(t0, s) != rt:
                     _fail(s, "call result of type %s stored in %s" % (rt, self.target_type(t0, s)))
                 bf, names = self.bind_fun(t0, s)
@@ -647,6 +763,11 @@ class Fn:
             e = self.m.eqb(t[1], s)
             return self.guarded(k[2] + ["(d_has %s %s %s)" % (e, self.get(v), k[0])],
                                 "(assign (fun s => %s))" % self.setter(v, "(d_del %s %s %s)" % (e, self.get(v), k[0]))), da
+        if isinstance(s, ast.If) and ast.unparse(s.test) in self.spec.get("static_tests", {}):
+            # [C10] spec option "static_tests": {"<test text>": bool}: the function is specialised to arguments for which the
+            # test has this value (named in the spec's note); only the live branch is translated
+            live = s.body if self.spec["static_tests"][ast.unparse(s.test)] else s.orelse
+            return self.block(live, da) if live else ("skip", da)
         if isinstance(s, ast.If):
             c = self.ex(s.test, da, 'B')
             a, da_a = self.block(s.body, da)
@@ -673,9 +794,19 @@ class Fn:
             if it[1][0] == 'D':
                 it = ("(map fst %s)" % it[0], ('L', et), it[2])
             tt = self.target_type(s.target, s)
-            if tt != et:
+            conv = None
+            if tt != et and self.spec.get("loop_coerce"):
+                # [C17] spec option "loop_coerce": the loop variable was declared with a wider type (e.g. Optional, because
+                # the same name holds an Optional elsewhere in the function): each element is coerced on binding.
+                cv = self.coerce(s, ("y_", et, []), tt)
+                if cv[2]:
+                    _fail(s, "conditional coercion of a loop element")
+                conv = cv[0]
+            elif tt != et:
                 _fail(s, "loop variable of type %s over elements of type %s" % (tt, et))
             bf, names = self.bind_fun(s.target, s)
+            if conv is not None:
+                bf = "(fun y_ s => %s %s s)" % (bf, conv)
             self.no_break(s.body)
             # the iterable is evaluated once; the body must not rebind what it was computed from in a way that a
             # Python iterator over the live object would notice (in-place append / del on the iterated variable)
@@ -714,6 +845,16 @@ class Fn:
                    cur[2] + (lo[2] if lo else []) + (hi[2] if hi else []) + rhs[2] + ["(np_set_slice_ok %s %s)" % (sl, rhs[0])])
             fake_target = base
             return self.store(s, fake_target, new, da)
+        if self.spec.get("list_item_assign"):
+            # [C10] spec option "list_item_assign": `l[i] = v` on a list (a local, or a field of a record declared under
+            # "mutates"), Python's negative indices, IndexError when out of range
+            cur = self.ex(base, da)
+            if isinstance(cur[1], tuple) and cur[1][0] == 'L':
+                i = self.ex(t0.slice, da, 'Z')
+                val = self.ex(s.value, da, cur[1][1])
+                new = ("(list_set %s %s %s)" % (cur[0], i[0], val[0]), cur[1],
+                       cur[2] + i[2] + val[2] + ["(idx_ok %s %s)" % (cur[0], i[0])])
+                return self.store(s, base, new, da)
         if isinstance(base, ast.Name):
             v = base.id
             t = self.vars.get(v)
@@ -810,10 +951,16 @@ def translate_module(repo, modname, mod):
            "Open Scope Z_scope.", ""]
     if mod.get("context"):
         out.append("Section Gen.\nContext %s.\n" % " ".join(mod["context"]))
+    for name, e in mod.get("externs", {}).items():
+        # [C10] module option "externs": {python name: {"coq", "params": [types], "ret"}}: a function translated elsewhere (e.g. by
+        # the first front end), given as a Coq term that returns a `res` (Raised = it raises); callable as `v = f(..)`
+        m.translated[name] = (e["coq"], [_tt(t) for t in e["params"]], _tt(e["ret"]), False, False)
     for spec in mod["functions"]:
         src = open(repo.rstrip("/") + "/" + spec["source"]).read()
         fdef = find_function(ast.parse(src), spec["qualname"])
-        if fdef.decorator_list:
+        # [C11] spec option "allow_decorators": decorators (exact ast.unparse text) that the spec declares transparent for the
+        # translated body (staticmethod; a cache whose transparency is a theorem of the owning property)
+        if fdef.decorator_list and not all(ast.unparse(d) in spec.get("allow_decorators", []) for d in fdef.decorator_list):
             raise Untranslatable("%s:%s: decorated function" % (spec["source"], spec["qualname"]))
         try:
             fn = Fn(m, spec, fdef)
